@@ -290,6 +290,7 @@ type modSet struct {
 	whole map[string]bool
 	next  bool
 	alloc bool
+	hv    []havocRec // wholesale havocs performed by the body (by prefix)
 }
 
 func newModSet() *modSet {
@@ -297,7 +298,7 @@ func newModSet() *modSet {
 }
 
 func (m *modSet) size() int {
-	n := len(m.cells) + len(m.whole)
+	n := len(m.cells) + len(m.whole) + len(m.hv)
 	for _, r := range m.heap {
 		n += len(r)
 	}
@@ -359,6 +360,9 @@ func (x *exec) havoc(s *State, m *modSet, consts map[*Term]bool, tag string) *St
 	e := x.e
 	c := e.C
 	n := s.clone()
+	for _, h := range m.hv {
+		e.addHavoc(n, h.prefix, h.all)
+	}
 	note := func(v Value) {
 		var walk func(v Value)
 		walk = func(v Value) {
@@ -614,6 +618,19 @@ func (x *exec) enterLoop(li *loopInfo, s *State) *State {
 				}
 				m.whole[key] = true
 				delete(m.heap, key)
+			}
+			if len(b.havocs) > len(hs.havocs) {
+				for _, h := range b.havocs[len(hs.havocs):] {
+					dup := false
+					for _, q := range m.hv {
+						if q.all == h.all && q.prefix == h.prefix {
+							dup = true
+						}
+					}
+					if !dup {
+						m.hv = append(m.hv, havocRec{prefix: h.prefix, all: h.all})
+					}
+				}
 			}
 			if b.next != hs.next {
 				m.next = true
